@@ -202,6 +202,13 @@ theorem inner_decoder_chunking_stateless_partial (c : CName) (cs : List (List Na
     incDecode c cs = statelessDecode c cs.flatten := by
   rw [incDecode_eq, stateless_agrees c _ h]; rfl
 
+/-- the guard `Agree` is exact: on every data outside it CPython's stateless and incremental decoders differ
+(one raises where the other returns text), for every chunking -/
+theorem agree_is_necessary (c : CName) (cs : List (List Nat)) (h : ¬ Agree c cs.flatten) :
+    incDecode c cs ≠ statelessDecode c cs.flatten := by
+  rw [incDecode_eq]
+  exact fun e => stateless_disagrees c _ h e.symm
+
 /-- outside `Agree` (1): `utf-16` data without BOM — `codecs.getdecoder("utf-16")(b"a\0")` is `"a"` (native
 byte order), the incremental decoder raises "UTF-16 stream does not start with BOM" -/
 theorem finding_utf16_no_bom :
@@ -627,5 +634,6 @@ example : lookupName (cps' "UTF-16BE") = some (.plain .u16be) ∧
   ⟨by decide, by decide⟩
 example : oneShot cpyInner none true (encodeOneShot cpyInnerEnc (some (cps' "UTF-16BE")) (prefix10 ++ [0x78, 0x22, 0x3B, 0xE9])) =
     prefix10 ++ cps' "utf-16-be" ++ [0x22, 0x3B, 0xE9] := by decide
+example : ¬ Agree .u16 ([[0x61], [0]] : List (List Nat)).flatten := by decide
 
 end CssVerif.C07
